@@ -10,3 +10,9 @@ pub use crate::refs::{ResolveState, Token};
 pub fn token_parse(s: &str) -> anyhow::Result<Option<Token>> {
     Token::parse(s)
 }
+
+/// Returns whether `cfg` ignores the missing class `cls` (`Config::is_class_ignored`).
+#[must_use]
+pub fn is_class_ignored(cfg: &Config, cls: &str) -> bool {
+    cfg.is_class_ignored(cls)
+}
